@@ -50,6 +50,10 @@ CLASS_SEEDS = [
     # a toggling finite variable next to an accumulator (eigenvalue -1 in an acyclic system: summands like k*(-1)**k)
     "c = 1\nx = Bernoulli(1/4)\nwhile true:\n    if c == 1:\n        c = 0\n    else:\n        c = 1\n        x = x + 1\n    end\nend\n",
     "c = 0\nx = 0\ny = 0\nwhile true:\n    c = 1 - c\n    x = x + c\n    y = y + x\nend\n",
+    # linear self-dependency whose coefficient is a power of a freshly drawn ("simple") variable
+    "u = 0\nx = 1\nwhile true:\n    u = Normal(0, 1)\n    x = x + u**2*x/2\nend\n",
+    "d = 1\ny = 1\nwhile true:\n    d = DiscreteUniform(1, 3)\n    y = y*d**2/2\nend\n",
+    "u = 0\nx = 1\ns = 0\nwhile true:\n    u = Uniform(0, 2)\n    s = s + x\n    x = x*u**3 + u\nend\n",
     # || / ! / elif chains
     "c = 0\nx = 0\ny = 0\nwhile true:\n    c = DiscreteUniform(0, 3)\n    if c == 0 || c == 3:\n        x = x + 1\n    elif !(c == 1):\n        y = y + 1\n    elif c >= 1:\n        y = y - 1\n    else:\n        x = 0\n    end\nend\n",
     # guard over two finite variables, location-scale draws
@@ -125,7 +129,7 @@ def in_class(text):
                         polys = []
                     for p in polys:
                         for m, c in p.t.items():
-                            data = [(v, e) for v, e in m if v in assigned and v not in finite]
+                            data = [(v, e) for v, e in m if v in assigned and v not in finite and v not in iid]
                             deg = sum(e for v, e in data)
                             for v, e in m:
                                 if v in assigned:
@@ -173,6 +177,18 @@ def in_class(text):
             break
         fin -= bad
     finite |= fin
+    # variables whose only assignment in the loop is an unconditioned draw with constant parameters are fresh in every iteration
+    iid = set()
+    top = {}
+    for st in prog.body:
+        if isinstance(st, L.Assign):
+            for t, r in zip(st.targets, st.rhss):
+                top.setdefault(t, []).append(r)
+    body_assigned = [t for t, r in all_assigns(prog.body, [])]
+    for t, rs in top.items():
+        if len(rs) == 1 and body_assigned.count(t) == 1 and isinstance(rs[0], L.RDraw) \
+                and not any(p.variables() & assigned for p in rs[0].params):
+            iid.add(t)
     walk(prog.init)
     walk(prog.body)
     if not ok[0]:
@@ -277,6 +293,11 @@ def run_case(case):
             with cpu_limit(30):
                 polar.reset_settings()
                 program = polar.normalize(polar.parse(text))
+            defective = [str(v) for v in getattr(program, "defective_variables", [])]
+            if defective:
+                # the class has no non-linear dependency cycle: every variable must be classified effective
+                res["violations"].append({"sub": "variables-classified-defective", "detail": {"program": text, "defective": defective}})
+                res["status"] = "violation"
             store = getattr(program, "abstracted_const_store", {}) or {}
             if store:
                 res["violations"].append({"sub": "finite-condition-abstracted", "detail": {
